@@ -1,1 +1,4 @@
 //! E2/E3: harness-owned network between two real endpoints, and independent wire readers.
+pub mod fault;
+pub mod rig;
+pub mod wire;
